@@ -25,6 +25,8 @@ structure Kernel where
   maps : List (Nat × Nat) := []      -- live `mmap` ranges `(addr, size)`
   grants : List (Nat × Nat) := []    -- live gntdev mappings `(index, count)`
   next : Nat := 0x10000              -- where the next fresh mapping goes
+  faults : Nat := 0                  -- releases of something that is not held: a second `munmap` of a range, a second
+                                     -- unmap of a grant mapping ("unmapped, exactly once" is `faults = 0`)
   deriving Repr, DecidableEq
 
 /-- replies of the successive fallible system calls -/
@@ -36,7 +38,8 @@ def mmapCall (k : Kernel) (size : Nat) (sc : Script) : Option Nat × Kernel × S
   | false :: rest => (none, k, rest)
   | _ => (some k.next, { k with maps := (k.next, size) :: k.maps, next := k.next + size + 4096 }, sc.tail)
 
-def munmapCall (k : Kernel) (addr size : Nat) : Kernel := { k with maps := k.maps.erase (addr, size) }
+def munmapCall (k : Kernel) (addr size : Nat) : Kernel :=
+  if (addr, size) ∈ k.maps then { k with maps := k.maps.erase (addr, size) } else { k with faults := k.faults + 1 }
 
 /-- `IOCTL_GNTDEV_MAP_GRANT_REF {count, refs = base ..}`: on success the device remembers
     `(index, count)` and reports `index` (the offset to pass to `mmap`) -/
@@ -45,7 +48,8 @@ def grantMapCall (k : Kernel) (index count : Nat) (sc : Script) : Bool × Kernel
   | false :: rest => (false, k, rest)
   | _ => (true, { k with grants := (index, count) :: k.grants }, sc.tail)
 
-def grantUnmapCall (k : Kernel) (index count : Nat) : Kernel := { k with grants := k.grants.erase (index, count) }
+def grantUnmapCall (k : Kernel) (index count : Nat) : Kernel :=
+  if (index, count) ∈ k.grants then { k with grants := k.grants.erase (index, count) } else { k with faults := k.faults + 1 }
 
 /-- `IOCTL_PRIVCMD_MMAPBATCH_V2`: populates an existing mapping; holds no state of its own -/
 def privcmdCall (sc : Script) : Bool × Script :=
